@@ -28,6 +28,7 @@ def run(tier, seed, flavour="plain"):
     distinct = set()
     samples = []
     ambiguous = 0
+    spellings_checked = spellings_not_expanded = 0
     # (1) every unit symbol expands to the dimension vector declared for its type
     for u in d["unit_types"]:
         dims = tuple(u["dimensions"])
@@ -51,6 +52,21 @@ def run(tier, seed, flavour="plain"):
             if len(samples) < 4 and any(dims):
                 samples.append({"unit_type": u["name"], "unit": e["id"], "symbol": a,
                                 "expanded_dimensions": [list(x) for x in alld], "declared": list(dims)})
+        # every other symbol the type accepts (its spellings table) denotes a unit of the same dimensions; a spelling the
+        # independent grammar cannot expand is C08's business (it reports it), not counted here
+        for sp in u.get("spellings", []):
+            try:
+                ms = S.meanings(sp["spelling"])
+            except S.ParseError:
+                spellings_not_expanded += 1
+                continue
+            evals += 1
+            spellings_checked += 1
+            alld = sorted({m.dims for m in ms})
+            if dims not in alld:
+                V.add_violation("C06|unit-type=%s|spelling=%s|symbol-dimensions" % (u["name"], sp["spelling"]),
+                                {"symbol": sp["spelling"], "symbol_dimensions": [list(x) for x in alld], "declared": list(dims),
+                                 "parses_to_enumerator_value": sp.get("parsed")})
         # printed form of the declared set against the independent formatter
         evals += 1
         want = model_print(dims)
@@ -98,6 +114,7 @@ def run(tier, seed, flavour="plain"):
                             "{-1..1}^7 (quick) / {-2..3}^7 (thorough); pairs are sampled" % (n_units, len(d["unit_types"]), len(d["quantities"])),
         "units_checked": n_units, "unit_types": len(d["unit_types"]), "quantities": len(d["quantities"]),
         "symbols_with_more_than_one_possible_dimension": ambiguous,
+        "accepted_spellings_expanded_and_compared": spellings_checked, "accepted_spellings_the_grammar_cannot_expand": spellings_not_expanded,
         "box_counters": m["counters"],
     }
     if n_units < 2 or len(d["quantities"]) < 2:
